@@ -142,6 +142,13 @@ def prop(line, impl, model):
                     return "rewriting produced different data: got %s" % impl[:80]
                 if kind == "error" and not main.startswith("E:"):
                     return "malformed armor was accepted: got %s" % impl[:80]
+                if kind == "as-model":
+                    # at the tokenizer's buffer limit the model decides whether the added token still fits
+                    mmain = split_res(model)[0]
+                    if mmain == "ok " + hx(p) and main != mmain:
+                        return "decoding changed under markup added outside the pre elements (a token that fits the 32 KiB limit): got %s" % impl[:80]
+                    if mmain.startswith("E:") and not main.startswith("E:"):
+                        return "a token beyond the 32 KiB limit was accepted: got %s" % impl[:80]
             if not (main.startswith("ok x") or main.startswith("E:")):
                 return "decoder result is neither data nor an error: " + impl[:80]
         if g == "1":
@@ -393,6 +400,66 @@ def gen(ctx):
     p = expand("g%d.3" % (el + 100))
     doc = py_armor(p).replace(b"</pre>\n<pre>", b"</pre><hr><!-- x --><p class=\"a\">text</p>\n<pre>")
     add("dec 0 4096 %s" % doc_tokens(doc), "outside-markup-big", ("same", p))
+    # ONE LARGE token of every kind outside the pre elements (what a cache really adds: an inlined runtime <style>/<script>,
+    # a long comment, a long attribute, a long text run): every token that fits the tokenizer's 32 KiB buffer is as
+    # invisible as a small one, wherever it stands - before the first pre element, between two, after the last. L is the
+    # raw length of the token. Well inside the limit the predicate is stated here (same data); within 32 bytes of it the
+    # look-ahead of each token kind decides (text: 2 bytes, raw text: its end tag) and the model's verdict is the
+    # expectation (C10_outside_anything's fit premise, C10_outside_markup's [neutral]); beyond it decoding must fail.
+    def big_token(kind, L):
+        if kind == "comment":
+            return b"<!--" + b"c" * (L - 7) + b"-->"
+        if kind == "attr":
+            return b"<div data-x=\"" + b"a" * (L - 15) + b"\">"
+        if kind == "attrs":
+            reps = (L - 5) // 6
+            return b"<p " + b"a='b' " * reps + b" " * (L - 5 - 6 * reps) + b"x>" if L >= 11 else b"<p>"
+        if kind == "text":
+            return b"t" * L
+        if kind == "style":
+            return b"<style>" + b"p{}" * ((L) // 3) + b" " * (L % 3) + b"</style>"
+        if kind == "script":
+            return b"<script>" + b"var a=\"<pre>\";" * (L // 14) + b" " * (L % 14) + b"</script>"
+        if kind == "title":
+            return b"<title>" + b"x" * L + b"</title>"
+        if kind == "doctype":
+            return b"<!DOCTYPE " + b"y" * (L - 11) + b">"
+        raise ValueError(kind)
+    KINDS = ["comment", "attr", "attrs", "text", "style", "script", "title", "doctype"]
+    p2 = expand("g%d.3" % (el + 100))      # two pre elements
+    docs = [(expand(payload_spec(rng, 100)), None), (p2, None)]
+    def places(doc):
+        first = doc.index(b"<pre>")
+        last = doc.rindex(b"</pre>") + 6
+        out = [("before", first), ("after", last)]
+        mid = doc.find(b"</pre>\n<pre>")
+        if mid >= 0:
+            out.append(("between", mid + 6))
+        out.append(("head", doc.index(b"<head>") + 6) if b"<head>" in doc[:first] else ("start", 0))
+        return out
+    sizes_same = [4095, 4096, 4097, 8192, 20000, 32767 - 32]
+    for kind in KINDS:
+        for j, L in enumerate(sizes_same + [rng.randrange(4098, 32700)] * (1 if not thorough else 8)):
+            p = docs[0][0] if (j % 3) else p2
+            doc = py_armor(p)
+            name, at = rng.choice(places(doc))
+            tokb = big_token(kind, L)
+            # text is delimited by tags so that it is one text token of exactly L bytes
+            ins = (b"<b>" + tokb + b"</b>") if kind == "text" else tokb
+            d2 = doc[:at] + ins + doc[at:]
+            sc, rb = rng.choice([("0", "4096"), ("0", "4096"), ("4096", "4096"), ("100", "768"), ("1000,3,50", "3")])
+            add("dec %s %s %s" % (sc, rb, doc_tokens(d2)), "outside-markup", ("same", p))
+        doc = py_armor(docs[0][0])
+        for L in [32767 - 20, 32767 - 9, 32767 - 8, 32767 - 2, 32767 - 1, 32767, 32768, 32769, 32768 + 8]:
+            name, at = rng.choice(places(doc))
+            tokb = big_token(kind, L)
+            ins = (b"<b>" + tokb + b"</b>") if kind == "text" else tokb
+            add("dec 0 4096 %s" % doc_tokens(doc[:at] + ins + doc[at:]), "outside-markup", ("as-model", docs[0][0]))
+        for L in [32768 + 40, 40000]:
+            name, at = rng.choice(places(doc))
+            tokb = big_token(kind, L)
+            ins = (b"<b>" + tokb + b"</b>") if kind == "text" else tokb
+            add("dec 0 4096 %s" % doc_tokens(doc[:at] + ins + doc[at:]), "outside-markup", ("error", b""))
     # markup inside a pre element (not required to be harmless; model and implementation must agree)
     for i in range(60 * mult):
         # payloads of 3k bytes: no padding, so inserted base64 text never follows a padded quantum
